@@ -20,7 +20,7 @@ POSITIONS = (
 RULE = (
     "case = (position, date-time): 8 positions (APDU header tagged/untagged in Kaifa and Kamstrup frames; clock element of Aidon list, Kaifa value list, Kaifa SE list, Kamstrup list); "
     "years {1,1999,2000,9999,random}, every month, month ends incl. 29 Feb, hour/minute/second boundaries, hundredths {FF,0,1,50,99,random}; the (status, deviation) pair is enumerated "
-    "systematically: status = k mod 256, deviation cycles through 0x8000 and -720..720, so that all 256 status octets (quick) / all 256 x 1442 pairs (thorough) occur; day-of-week any octet. "
+    "systematically: status = k mod 256, deviation cycles through 0x8000 and -720..720, so that all 256 status octets (quick) / all 256 x 1442 pairs (thorough) occur; day-of-week any octet; every 4th case adds a burst of date-times sharing the civil second whose (hundredths, deviation) digits are ambiguous when concatenated. "
     "evaluations = decoder calls; distinct non-trivial = distinct (position, 12 octets) with a specified deviation or hundredths or a status octet other than 0."
 )
 ASSUMPTIONS = ["12-octet layout per COSEM blue book 4.1.6.1 as emitted by vf/ref/cosem_enc.datetime12"]
@@ -33,7 +33,7 @@ def plan(tier, seed):
     return [{"n": N[tier], "k0": i * N[tier]} for i in range(16)]
 
 
-def build(position: str, dt12: bytes, rng):
+def build(position: str, dt12: bytes, rng, spec=None):
     """(vendor, form, message bytes)"""
     other12, _ = dlms_gen.gen_datetime(rng)
     if position.endswith("kaifa_frame"):
@@ -61,6 +61,11 @@ def build(position: str, dt12: bytes, rng):
         body = ce.kaifa_value_body(vals)
         if rng.random() < 0.5:
             return "kaifa", "body", body
+        if spec is not None and rng.random() < 0.5:
+            # the APDU header clock names the same instant as the list clock, written with another deviation: the list clock still wins
+            alt = dlms_gen.same_instant_other_deviation(rng, spec)
+            if alt is not None:
+                other12 = alt[0]
         return "kaifa", "frame", ce.apdu(body, other12, tagged=rng.random() < 0.5)
     if position == "kaifa_se_clock_element":
         body = ce.kaifa_obis_body([((1, 0, 1, 7, 0, 255), ce.u32(7)), ((0, 0, 1, 0, 0, 255), ce.datetime_octets(dt12))])
@@ -74,7 +79,7 @@ def build(position: str, dt12: bytes, rng):
 def check(position, dt12, spec, rng, ctx) -> None:
     import importlib
 
-    vendor, form, msg = build(position, dt12, rng)
+    vendor, form, msg = build(position, dt12, rng, spec)
     mod = importlib.import_module(f"han.{vendor}")
     fn = mod.decode_notification_body if form == "body" else mod.decode_frame_content
     case = {"position": position, "dt12": dt12, "spec": spec, "vendor": vendor, "form": form, "message": msg}
@@ -123,6 +128,20 @@ def run(shard, ctx):
             ctx.count("hundredths_nonzero")
         if status == 0xFF:
             ctx.count("status_FF")
+        if i % 4 == 0:
+            # a burst of date-times that share the civil second and differ only in hundredths / deviation / status, chosen so that
+            # the digits of (hundredths, deviation) read the same when written next to each other: (26, 0) and (2, 60), (12, 3) and (1, 23)
+            digits = str(rng.randint(100, 9999))
+            for cut in range(1, len(digits)):
+                hh, dd = int(digits[:cut]), int(digits[cut:])
+                if hh > 99 or dd > 720:
+                    continue
+                for sign in (1, -1):
+                    b12 = ce.datetime12(y, mo, d, dow, h, mi, s, hh, sign * dd, status)
+                    bspec = dict(spec, hundredths=hh, us=hh * 10000, deviation=sign * dd, offset_min=-sign * dd)
+                    check(position, b12, bspec, rng, ctx)
+                    ctx.case(position.encode() + b12, True)
+                    ctx.count("burst_datetimes_sharing_the_civil_second")
         if i < 2:
             ctx.sample({"position": position, "dt12": dt12, "expect": spec})
 
